@@ -201,10 +201,15 @@ PROPS = {
         claim="For every world, association and request of the agent model: every establishment reply is addressed to the request's CP SEID; a reply carrying "
               "a UP F-SEID is accepted, carries exactly the SEID the session is stored under; deletion/modification of an unknown session is rejected with "
               "SEID 0 and changes nothing; accepted deletion is addressed to the stored CP SEID. 'Exactly one response of the matching type with the request's "
-              "sequence number, responses never answered' is structural in the model and COUNTED on the peer socket of the real agent for every request "
-              "type (heartbeat, association setup/release, PFD management, session establishment/modification/deletion) and 7 response types.",
+              "sequence number, responses never answered': T1 facts regenerated from PFCPConn.HandlePFCPMsg and the handlers (Gen.Dispatch) and evaluated in Lean - "
+              "each served request type has exactly one clause, which calls its own handler and takes its reply; every handler builds only the matching "
+              "response constructor and sends nothing itself; the dispatcher's only send is the top-level `if reply != nil { SendPFCPMsg(reply) }` after the "
+              "switch, no loop; clauses serving response types take no reply, their handlers build and send nothing, other types return - and COUNTED on the "
+              "peer socket of the real agent for every request type (heartbeat, association setup/release, PFD management, session "
+              "establishment/modification/deletion) and 7 response types.",
         note="partial: byte-level header encoding and message typing are go-pfcp's; the association-level handlers (heartbeat, setup, release, PFD) are "
-             "modelled only as far as the store and application table go. Trusted: Lean kernel + standard axioms, go-pfcp, loopback UDP.",
+             "modelled only as far as the store and application table go; the dispatch facts are syntactic (sends inside callees of a handler are seen by the "
+             "datagram count of T2 only). Trusted: Lean kernel + standard axioms, the extractor, go-pfcp, loopback UDP.",
         rule="300+ requests over 3 associations with interleaved sessions: all request types, sequence numbers from {1,2,2^23,2^24-1,...,random 24-bit}, accepted and "
              "rejected mixes (wrong node ID, unknown / foreign session, unknown Remove ID, malformed PFD), CP F-SEID changes, releases and re-associations, "
              "response-type messages; non-trivial = an accepted request or an answered heartbeat Also: flow descriptions naming IPv6 networks; a third world with the heartbeat timer on in which the peer answers every heartbeat of the agent twice, followed by heartbeat / establishment / deletion requests.",
